@@ -13,7 +13,7 @@ class Conditional:
         self.variable_index = variable_index
 
     def __call__(self, x: ndarray):
-        t = self.theta.copy()
+        t = self.theta.astype(float)
         t[self.variable_index] = x
         return self.posterior(t)
 
